@@ -302,6 +302,15 @@ func ruleTranslateOrder(r *Report) {
 		}
 	}
 	r.Check(bitsOK && len(opens) == 2, rule, "translateIndex/new-index-uses-requested-bits", fn.Pos(), "the new index is opened with the requested bit size", "the new index is not opened with the requested bit size parameter")
+	// the new index is built in a fresh, empty directory
+	for _, o := range opens {
+		if _, isP := o.Common().Args[3].(*ssa.Parameter); !isP {
+			continue
+		}
+		fresh := derives(o.Common().Args[1], flowOpts{ThroughAllCalls: true}, isCallTo("os.MkdirTemp"))
+		r.Check(fresh, rule, "translateIndex/new-index-in-fresh-dir", o.Pos(), "the new index is built in a directory created by os.MkdirTemp (fresh, empty)",
+			"the new index is not built in a fresh os.MkdirTemp directory: a complete or partial new index left by an interrupted translation is adopted and merged into on the retry — updated keys return old values and removed keys reappear")
+	}
 	// both opens pass the requested index file size, so that a file-size
 	// mismatch is still refused when the bit size differs too
 	for _, o := range opens {
@@ -436,6 +445,7 @@ func init() {
 		ruleRejectBeforeMutate(r)
 		ruleTranslateOrder(r)
 		ruleTranslateAll(r)
+		ruleScanFromFirstFile(r)
 		ruleIterateAll(r)
 	},
 		"Decides structural necessary conditions of 're-bucketing keeps contents; mismatching file sizes are refused', not equality of contents for all (old,new) pairs: translateIndex starts only on the errors.As(ErrIndexWrongBitSize) edge of index.Open's error and the index is reopened after it; between reading the header and refusing with ErrIndexWrongBitSize/ErrIndexWrongFileSize/ErrPrimaryWrongFileSize no call that may (transitively) modify files is made, and the refusal sits on the header-value != requested edge; in translateIndex the old files are displaced only after both indexes closed successfully, the new ones installed after that, the displaced copy deleted only after a successful install; every record the old iterator returns reaches newIndex.Put with the key read from the primary at the record's location and the location unchanged. Not covered: the crash clause (the two MoveFiles are not atomic — observation O-3), contents equality.",
